@@ -59,7 +59,7 @@ func (x *Exec) isLoggingCall(call *ast.CallExpr) bool {
 				return true
 			}
 		}
-		if fn, ok := x.info().Uses[se.Sel].(*types.Func); ok && strings.HasPrefix(pkgPathOf(fn), "github.com/rs/zerolog") {
+		if fn, ok := x.info().Uses[se.Sel].(*types.Func); ok && (strings.HasPrefix(pkgPathOf(fn), "github.com/rs/zerolog") || pkgPathOf(fn) == "github.com/vektra/mockery/v3/internal/logging") {
 			return true
 		}
 	}
@@ -108,6 +108,7 @@ func (x *Exec) evalCall(call *ast.CallExpr, st *State) []Term {
 	if fn == nil {
 		return x.callFuncValue(call, st)
 	}
+	x.countCall(st, fn)
 	sig := fn.Type().(*types.Signature)
 	// receiver
 	var recv *Term
@@ -138,6 +139,24 @@ func (x *Exec) evalCall(call *ast.CallExpr, st *State) []Term {
 		f()
 	}
 	return res
+}
+
+// countCall maintains the ghost call counters read by called("name") in contracts.
+func (x *Exec) countCall(st *State, fn *types.Func) {
+	if st.ghost == nil {
+		st.ghost = map[string]Term{}
+	}
+	for _, k := range []string{"called:" + fn.Name(), "called:" + extName(fn)} {
+		v, ok := st.ghost[k]
+		if !ok {
+			v = intLit(0)
+		}
+		if f, ok := foldArith("+", v, intLit(1)); ok {
+			st.ghost[k] = f
+		} else {
+			st.ghost[k] = mk(SInt, "+", v, intLit(1))
+		}
+	}
 }
 
 // evalArgs evaluates call arguments against the signature (variadic packing, boxing).
